@@ -158,6 +158,12 @@ def programs (cap : Nat) (mode : String) (n rounds : Nat) : Option (Array SThrea
     -- racers for the last free slot; the winner keeps it, then the context is cancelled
     some ((workers fun _ => [.waitStart, .acq 1]).push
       { ops := rep (cap - 1) [.acq 0] ++ [.waitOk cap, .cancel 1, .waitDone] ++ rep cap [.rel] })
+  | "ownctx" =>
+    -- a context per waiter (2 + i); all parked on a full semaphore, cancelled one by one,
+    -- the latest arrival first
+    some ((workers fun i => [.waitStart, .acq (i + 2), .relIfHeld]).push
+      { ops := rep cap [.acq 0] ++ [.waitParked] ++ ((List.range n).reverse.map fun i => SOp.cancel (i + 2))
+                ++ [.waitDone] ++ rep cap [.rel] })
   | "idlerel" =>
     some ((workers fun _ => []).push
       { ops := rep rounds [.rel] ++ rep cap [.acq 0] ++ [.cancel 1, .acq 1] ++ rep cap [.rel] })
